@@ -9,3 +9,14 @@ def tick(name="paths"):
 
 def snapshot():
     return dict(COUNTERS)
+
+
+def replay_by_rerun(glob, func, call, key=None, what=""):
+    """Replay for harnesses that use NO stubs: the harness body already runs the real code with real primitives, so the
+    counterexample is re-executed concretely (outside CrossHair); it reproduces iff the postcondition is false again."""
+    args = eval("(" + call + ",)" if call.strip() else "()", dict(glob))
+    try:
+        r = glob[func](*args)
+    except Exception as e:  # noqa
+        return {"violated": True, "key": key or func, "detail": "%s(%s) raised %s: %s %s" % (func, call, type(e).__name__, e, what)}
+    return {"violated": r is False, "key": key or func, "detail": "%s(%s) returned %r on the real code %s" % (func, call, r, what)}
